@@ -132,8 +132,10 @@ def rule_der(ctx: Ctx, rep: Report) -> None:
     rep.ob(rule, "parse:value_errors_only", not esc, p.where(), "a malformed encoding is a BTClibValueError" if not esc else f"may raise {sorted(esc)}")
     # serialize writes minimal scalars: size = bit_length // 8 + 1
     ss = ctx.func(f"{D}._serialize_scalar")
-    sz = [n for n in own_nodes(ss.node) if isinstance(n, ast.Assign) and "bit_length()" in norm(n.value)]
-    rep.ob(rule, "serialize:minimal", bool(sz) and norm(sz[0].value) == "scalar.bit_length() // 8 + 1", ss.where(), f"scalar size = {norm(sz[0].value) if sz else None}")
+    from sa import values as VX
+    okm = VX.of(ss).anywhere("scalar.to_bytes(scalar.bit_length() // 8 + 1, byteorder='big', signed=False)") or VX.of(ss).anywhere("scalar.to_bytes(scalar.bit_length() // 8 + 1, 'big')") \
+        or VX.of(ss).anywhere("scalar.to_bytes(1 + scalar.bit_length() // 8, byteorder='big', signed=False)")
+    rep.ob(rule, "serialize:minimal", okm, ss.where(), "the scalar is written at bit_length // 8 + 1 octets" if okm else "the scalar is not written at bit_length // 8 + 1 octets")
 
 
 def rule_recover_range(ctx: Ctx, rep: Report) -> None:
